@@ -237,6 +237,14 @@ H("C01", "mpq", _BP, "quick", "C01.d writer->reader data path, single-unit file,
   "file content [u8; 5] symbolic (0 and 3 bytes in the edge cases), codec payload symbolic; configuration flags concrete per harness; lookup under a different case/slash spelling of the stored name",
   "one file of 5 bytes at archive offset 32, 4-slot hash table, sector size 512, V1 classic tables fabricated in memory",
   stubs=[FMT, MEMFILE, CODEC], abstraction_stubs=["compress", "decompress"], timeout=900)
+H("C01", "mpq", _BP, "quick", "C01.d multi-sector file (513 bytes, two sectors): plain and with one sector compressed through the abstract codec",
+  ["c01d_ms_plain", "c01d_ms_codec"], _pathfns + ["archive::Archive::read_sectored_file"],
+  "last 4 bytes of sector 0 and the byte of sector 1 symbolic (rest concrete 0x11), codec payload symbolic", "513-byte file, sector size 512",
+  stubs=[FMT, MEMFILE, CODEC], abstraction_stubs=["compress", "decompress"], timeout=1200)
+H("C01", "mpq", _BP, "thorough", "C01.d multi-sector file: sector-CRC flag, encrypted, position-adjusted key, encrypted + compressed",
+  ["c01d_ms_plain_crcflag", "c01d_ms_codec_crc", "c01d_ms_enc", "c01d_ms_enc_fix", "c01d_ms_enc_codec", "c01d_ms_enc_fix_codec"],
+  _pathfns + ["archive::Archive::read_sectored_file"], "as above", "513-byte file, sector size 512",
+  stubs=[FMT, MEMFILE, CODEC], abstraction_stubs=["compress", "decompress"], timeout=2400)
 H("C01", "mpq", _BP, "thorough", "C01.d single-unit file with sector checksum (real Adler-32 over symbolic bytes)",
   ["c01d_su_plain_crc", "c01d_su_codec_crc", "c01d_su_enc_crc", "c01d_su_enc_fix_codec_crc"], _pathfns,
   "file content [u8; 5] symbolic, CRC on", "as above", stubs=[FMT, MEMFILE, CODEC], abstraction_stubs=["compress", "decompress"], timeout=2400)
@@ -319,9 +327,9 @@ H("C10", "mpq", _SG, "quick", "C10.a weak-signature padding: what the library pr
 H("C10", "mpq", _SG, "thorough", "C10.a strong-signature padding is exact", ["c10a_strong_padding_exact"],
   ["crypto::signature::verify_mpq_strong_signature_padding"], "block [u8; 256] and digest [u8; 20] symbolic", "256-byte block", stubs=[FMT], timeout=1800)
 H("C10", "mpq", _SG, "quick", "C10.b the weak-signature digest is fed exactly the signed range with the signature window zeroed",
-  ["c10b_weak_digest_covers_signed_range"], ["crypto::signature::calculate_mpq_hash_md5", "crypto::signature::SignatureInfo::new_weak"],
-  "24 data bytes symbolic; begin <= end <= 24 and exclusion window [xb, xe) within 24, all symbolic", "archive of 24 bytes (one digest block)",
-  stubs=[FMT, "md5::compress::compress -> tap recording the 64-byte blocks (decides which bytes are covered, never digest values)"], timeout=900)
+  ["c10b_weak_digest_covers_signed_range", "c10b_weak_digest_covers_inner_range"], ["crypto::signature::calculate_mpq_hash_md5", "crypto::signature::SignatureInfo::new_weak"],
+  "24 data bytes symbolic; exclusion window [xb, xe) within 24 symbolic; signed range [0,24) and [4,20)", "archive of 24 bytes (one digest block)",
+  stubs=[FMT, "md5::compress::compress -> tap recording the 64-byte blocks (decides which bytes are covered, never digest values)"], timeout=1500)
 H("C10", "mpq", _SG, "quick", "canary", ["c10_sig_canary"], ["crypto::signature::verify_pkcs1_v15_md5"], "vacuity twin", "-", expect="canary", stubs=[FMT])
 
 # =============================================================================== C08
@@ -390,7 +398,7 @@ H("C05", "mpq", _AD, "quick", "canary", ["c05_adpcm_canary"], ["compression::alg
 H("C05", "mpq", _TH, "quick", "C05.mpq.4 classic table decoders are total; lookups terminate and only return valid matching entries",
   ["c05_hash_table_from_bytes_total", "c05_block_table_from_bytes_total", "c05_hash_table_find_total"],
   ["tables::HashTable::from_bytes", "tables::BlockTable::from_bytes", "tables::HashTable::find_file"],
-  "table data <= 32 symbolic bytes, declared entry count u32 symbolic; 2-slot table with fully symbolic entries", "<= 2 entries",
+  "table data of 0/15/16/32 symbolic bytes x declared entry counts {0,1,2,3,4,2^28,2^32-1}; 2-slot table with fully symbolic entries", "<= 2 entries",
   stubs=[FMT], timeout=900, termination_of=["find_file"])
 H("C05", "mpq", _TH, "quick", "canary", ["c05_tables_canary"], ["tables::HashTable::from_bytes"], "vacuity twin", "-", expect="canary", stubs=[FMT])
 
